@@ -57,6 +57,7 @@ def run(repo, rep, tier):
     # totals are conserved across siblings only if a node leaves the caller's weight array alone (a sibling filled afterwards would
     # see zeroed weights while the parent counted them) and only if += really updates the child it is applied to
     rep.borrow(repo, "C03", {"R3.3": ("R5.5", "a node never writes into the weight/data arrays its siblings and parent also use", 400)})
+    rep.borrow(repo, "C07", {"R7.3": ("R5.7", "a += b shares no child with b afterwards (a later fill of b would add weight to a's bins but not to a's entries)", 19)})
     rep.borrow(repo, "C07", {"R7.2": ("R5.6", "child += other_child updates the child (every __iadd__ returns self), so children keep the parent's entries", 19)})
     for c in prims:
         fill = repo.own_method(c, "fill")
